@@ -4,13 +4,13 @@ CONSTANTS
   SameAddr = FALSE
   Writers = {1}
   Q = 2
-  InitHead = 2
-  MaxR = 5
-  Froms = {1, 2}
+  InitHead = 4
+  MaxR = 7
+  Froms = {1, 3}
   Backend = "mem"
   Buf = 4
   Remap = FALSE
   Faults = {}
   MaxFaults = 0
-INVARIANTS TypeOK Inv_SentStored Mon_InOrder Mon_FromStart Mon_NoGap
+INVARIANTS TypeOK Inv_SentStored Mon_InOrder Mon_ScanNoGap
 CHECK_DEADLOCK FALSE
